@@ -402,6 +402,10 @@ def wicks(expr, rules: Rules = None, simplify_kronecker_deltas: bool = False):
         for factor in expr.args:
             if factor.is_commutative:
                 c_part.append(factor)
+            elif isinstance(factor, Pow) and \
+                    isinstance(factor.base, FermionicOperator):
+                # a fermionic operator is nilpotent: a_p * a_p = 0
+                return S.Zero
             else:
                 op_string.append(factor)
 
